@@ -238,17 +238,26 @@ def run_harness(harness, where="ext", timeout=1800, mem_gb=40, nslots=4, extra=N
 # ------------------------------------------------------------------------------------------------
 
 def _find_harness_file(harness, roots):
+    """file to append the playback test to.  The test refers to the harness by its full crate path, so any file of the
+    crate that is compiled will do; prefer the one defining the harness (harnesses may be generated by macros, then
+    only the bare identifier occurs)."""
     fn = harness.split("::")[-1]
-    pat = re.compile(r"fn\s+%s\s*\(" % re.escape(fn))
+    pats = [re.compile(r"fn\s+%s\s*\(" % re.escape(fn)), re.compile(r"\b%s\b" % re.escape(fn))]
+    files = []
     for root in roots:
         for dp, _, fs in os.walk(root):
             if "/target" in dp:
                 continue
-            for f in fs:
+            for f in sorted(fs):
                 if f.endswith(".rs"):
-                    p = os.path.join(dp, f)
-                    if pat.search(open(p, errors="replace").read()):
-                        return p
+                    files.append(os.path.join(dp, f))
+    for pat in pats:
+        for p in files:
+            if pat.search(open(p, errors="replace").read()):
+                return p
+    for p in files:
+        if p.endswith("lib.rs"):
+            return p
     return None
 
 
